@@ -38,6 +38,7 @@ type clConn struct {
 	blockIDs  [][]byte
 	blockedCh chan struct{}
 	releaseCh chan bool
+	doFail bool // the Write that delivered the Do response then fails
 }
 
 func (c *clConn) Read(b []byte) (int, error) {
@@ -92,6 +93,10 @@ func (c *clConn) Write(b []byte) (int, error) {
 				case <-time.After(5 * time.Second):
 				}
 			case <-time.After(5 * time.Second):
+			}
+			if c.doFail { // ... and fails (op dofail): known finding F12 seen through Do
+				c.doFail = false
+				return 0, errScriptedWrite
 			}
 		}
 	}
@@ -432,7 +437,11 @@ func (e *executor) clientOp(t []string) (string, bool) {
 		err, reader := x.closeOnce()
 		return "ret=" + clientErr(err) + " " + x.outs() + " reader=" + reader, true
 	case t[1] == "do" && len(t) == 6:
-		return x.doOp(t), true
+		return x.doOp(t, false), true
+	case t[1] == "dofail" && len(t) == 6:
+		return x.doOp(t, true), true
+	case t[1] == "dolate" && len(t) == 6:
+		return x.doLateOp(t), true
 	case t[1] == "conc" && len(t) == 4:
 		return x.concOp(atoi(t[2]), uint64(atoi(t[3]))), true
 	}
@@ -494,7 +503,7 @@ loop:
 
 // CL do <id> <raw> <resp> <h>: Client.Do; the response reaches the reader while Start is still inside Write, so that
 // the event is handled before Do starts waiting; the callback takes a moment. Do must not return before it finished.
-func (x *clientExec) doOp(t []string) string {
+func (x *clientExec) doOp(t []string, fail bool) string {
 	m := &stun.Message{Raw: unhex(t[3])}
 	copy(m.TransactionID[:], unhex(t[2]))
 	started, release := make(chan struct{}), make(chan struct{})
@@ -513,6 +522,7 @@ func (x *clientExec) doOp(t []string) string {
 	if !x.closed {
 		x.conn.mu.Lock()
 		x.conn.doID, x.conn.doResp, x.conn.doStarted = unhex(t[2]), unhex(t[4]), started
+		x.conn.doFail = fail
 		x.conn.mu.Unlock()
 	}
 	done := make(chan error, 1)
@@ -536,6 +546,61 @@ func (x *clientExec) doOp(t []string) string {
 		}
 		how = "after-callback"
 		if fin == 0 {
+			how = "before-callback"
+		}
+		if fail {
+			how = "failed"
+		}
+	}
+	x.conn.mu.Lock()
+	x.conn.doFail = false
+	x.conn.mu.Unlock()
+	return "ret=" + clientErr(err) + " " + x.outs() + " do=" + how
+}
+
+// CL dolate <id> <raw> <resp> <h>: Client.Do whose response arrives only after Do has started waiting. Do must still be
+// waiting when the response is handed to the reader, and must return only after its callback has finished. (A wait
+// handler that an earlier, failed Do left "already processed" in the pool would let this Do return at once.)
+func (x *clientExec) doLateOp(t []string) string {
+	if x.closed {
+		return x.doOp(t, false)
+	}
+	m := &stun.Message{Raw: unhex(t[3])}
+	copy(m.TransactionID[:], unhex(t[2]))
+	var finished int32
+	rec := x.handler("h" + t[5])
+	f := func(e stun.Event) {
+		rec(e)
+		time.Sleep(5 * time.Millisecond)
+		atomic.StoreInt32(&finished, 1)
+	}
+	done := make(chan error, 1)
+	go func() { done <- x.c.Do(m, f) }()
+	how := "after-callback"
+	var err error
+	select {
+	case err = <-done:
+		if err != nil { // Start failed (duplicate id, scripted write failure): nothing to wait for
+			return "ret=" + clientErr(err) + " " + x.outs() + " do=none"
+		}
+		how = "returned-before-its-response-arrived"
+	case <-time.After(8 * time.Millisecond):
+	}
+	select {
+	case x.conn.inbox <- unhex(t[4]):
+	case <-time.After(10 * time.Second):
+		return "reader-stuck"
+	}
+	if !x.waitReader() {
+		return "reader-stuck"
+	}
+	if how == "after-callback" {
+		select {
+		case err = <-done:
+		case <-time.After(10 * time.Second):
+			return "do-hang"
+		}
+		if atomic.LoadInt32(&finished) == 0 {
 			how = "before-callback"
 		}
 	}
